@@ -372,8 +372,11 @@ def _judge_seq(va, vb, op, out, level, mosw, add, prop_order, prop_cons):
     if seqB != an.expected:
         if an.dup_or_apply:
             return      # colliding carried ids may be skipped instead; only frame and warnings are judged
-        if (an.unresolved or an.dups) and seqB == seqA:
-            add('C06.rest', '%s: the resolvable elements were not applied' % t)
+        if an.unresolved or an.dups:
+            # C01 / C02 speak of messages whose references resolve; what happens to the remaining elements of a
+            # message with an unresolvable or duplicate element is C06's business
+            add('C06.rest', '%s: with %s the remaining elements were not applied as they should: %r -> %r, expected %r' % (
+                t, 'an unresolvable element' if an.unresolved else 'a duplicate story', seqA, seqB, an.expected))
         else:
             ignored = _ignored(seqA, seqB, an, op)
             if ignored:
